@@ -962,7 +962,7 @@ func (p *Printer) expr(t *Term) string {
 			bs = append(bs, "("+symQuote(b.Name)+" "+b.Sort.Name+")")
 		}
 		body := p.expr(t.Args[0])
-		if len(t.Pats) > 0 {
+		if len(t.Pats) > 0 && patsOK(t.Pats) {
 			var pats []string
 			for _, ps := range t.Pats {
 				var xs []string
@@ -1104,4 +1104,34 @@ func (c *TermCtx) Script(asserts []*Term, getModel bool, extra string) string {
 		p.out.WriteString("(get-model)\n")
 	}
 	return hdr.String() + p.out.String()
+}
+
+// patsOK: patterns may not contain boolean connectives or ite.
+func patsOK(pats [][]*Term) bool {
+	var bad func(t *Term) bool
+	seen := map[int]bool{}
+	bad = func(t *Term) bool {
+		if seen[t.id] {
+			return false
+		}
+		seen[t.id] = true
+		switch t.Op {
+		case "ite", "and", "or", "not", "=>", "=", "<", "<=", "forall", "exists":
+			return true
+		}
+		for _, a := range t.Args {
+			if bad(a) {
+				return true
+			}
+		}
+		return false
+	}
+	for _, ps := range pats {
+		for _, a := range ps {
+			if bad(a) {
+				return false
+			}
+		}
+	}
+	return true
 }
